@@ -158,9 +158,15 @@ func init() {
 		}
 		_ = inQuantifier
 		p := routing.PropSpec{ID: "C02", SpecKey: "C02", Proj: routing.ProjStatus, NeedWF: true, Known: known}
+		traced := routing.FullOpts("curly")
+		traced.Trace = true
+		tracedJ := routing.FullOpts("jsr")
+		tracedJ.Trace = true
 		if err := routing.CheckStreams(run, p, []routing.StreamSpec{
 			{Name: "curly", Opts: routing.FullOpts("curly"), NCfg: n, PerCfg: 20},
 			{Name: "jsr", Opts: routing.FullOpts("jsr"), NCfg: n, PerCfg: 20},
+			{Name: "curly-traced", Opts: traced, NCfg: n / 2, PerCfg: 20},
+			{Name: "jsr-traced", Opts: tracedJ, NCfg: n / 2, PerCfg: 20},
 		}); err != nil {
 			return err
 		}
